@@ -261,6 +261,10 @@ func (it *Interp) intrinsic(fn *ssa.Function, args []Val, c *ssa.CallCommon) (Va
 	case "sync/atomic.Int64.Add", "sync/atomic.Int32.Add", "sync/atomic.Uint64.Add", "sync/atomic.Uint32.Add":
 		p := args[0].(Ptr)
 		off := it.atomicValueOffset(fn)
+		if it.tracer != nil {
+			it.tracer.mute++
+			defer func() { it.tracer.mute-- }()
+		}
 		old := it.getSlot(p.Obj, p.Off+off).(Int)
 		nv := it.fromTerm(cx.BVBin("bvadd", it.term(old), it.term(args[1].(Int))))
 		it.atomicEvent(p, off, true)
@@ -269,6 +273,10 @@ func (it *Interp) intrinsic(fn *ssa.Function, args []Val, c *ssa.CallCommon) (Va
 	case "sync/atomic.Int64.Load", "sync/atomic.Int32.Load", "sync/atomic.Uint64.Load", "sync/atomic.Uint32.Load", "sync/atomic.Bool.Load":
 		p := args[0].(Ptr)
 		off := it.atomicValueOffset(fn)
+		if it.tracer != nil {
+			it.tracer.mute++
+			defer func() { it.tracer.mute-- }()
+		}
 		it.atomicEvent(p, off, false)
 		v := it.getSlot(p.Obj, p.Off+off)
 		if name == "Bool.Load" {
@@ -279,6 +287,10 @@ func (it *Interp) intrinsic(fn *ssa.Function, args []Val, c *ssa.CallCommon) (Va
 	case "sync/atomic.Int64.Store", "sync/atomic.Int32.Store", "sync/atomic.Uint64.Store", "sync/atomic.Uint32.Store", "sync/atomic.Bool.Store":
 		p := args[0].(Ptr)
 		off := it.atomicValueOffset(fn)
+		if it.tracer != nil {
+			it.tracer.mute++
+			defer func() { it.tracer.mute-- }()
+		}
 		it.atomicEvent(p, off, true)
 		v := args[1]
 		if b, ok := v.(Bool); ok {
